@@ -72,11 +72,11 @@ struct Model {
   uint8_t lg_k = 4;
   bool dense = true;
   std::vector<uint64_t> mat;             // dense form: one 64-bit row pattern per row
-  std::map<uint32_t, uint64_t> sp;       // sparse form (lg_k > 20): only non-zero rows
+  std::map<uint32_t, uint64_t> sp;       // sparse form (lg_k > 22): only non-zero rows
   uint64_t C = 0;                        // number of distinct pairs
 
   Model() {}
-  explicit Model(uint8_t lg) : lg_k(lg), dense(lg <= 20) { if (dense) mat.assign(size_t(1) << lg, 0); }
+  explicit Model(uint8_t lg) : lg_k(lg), dense(lg <= 22) { if (dense) mat.assign(size_t(1) << lg, 0); }
   uint64_t k() const { return uint64_t(1) << lg_k; }
   uint64_t row_bits(uint32_t row) const {
     if (dense) return mat[row];
@@ -115,11 +115,11 @@ struct Model {
 
 // ------------------------------------------------------------------ read-out of the real sketch
 // Row patterns of the real sketch as a sparse map row -> bits (only non-zero rows).
-// For lg_k <= 20 this goes through the library's own build_bit_matrix(); above that (sparse-only smoke
+// For lg_k <= 22 this goes through the library's own build_bit_matrix(); above that (sparse-only smoke
 // cases) the k x 64 matrix would be 0.5 GB, so the surprising-value table of a window-less sketch is
 // read directly (in the sparse flavor the table IS the coupon set).
 inline bool read_matrix(const cpc_sketch& s, std::vector<uint64_t>& dense_out, std::map<uint32_t, uint64_t>& sparse_out, bool& is_dense) {
-  if (s.lg_k <= 20) {
+  if (s.lg_k <= 22) {
     auto m = s.build_bit_matrix();
     dense_out.assign(m.begin(), m.end());
     is_dense = true;
@@ -136,7 +136,7 @@ inline bool read_matrix(const cpc_sketch& s, std::vector<uint64_t>& dense_out, s
 // compare real matrix with model; returns true if identical, else fills detail
 inline bool matrix_equals(const cpc_sketch& s, const Model& m, std::string& detail, bool& missing) {
   std::vector<uint64_t> dn; std::map<uint32_t, uint64_t> sp; bool is_dense = true;
-  if (!read_matrix(s, dn, sp, is_dense)) { detail = "cannot read matrix (windowed sketch with lg_k > 20)"; missing = true; return false; }
+  if (!read_matrix(s, dn, sp, is_dense)) { detail = "cannot read matrix (windowed sketch with lg_k > 22)"; missing = true; return false; }
   uint64_t bad_rows = 0; uint32_t first_row = 0; uint64_t got0 = 0, want0 = 0;
   auto note = [&](uint32_t row, uint64_t got, uint64_t want) { if (!bad_rows++) { first_row = row; got0 = got; want0 = want; } };
   if (is_dense) {
